@@ -120,7 +120,18 @@ class ReachingDefs:
                 continue
             i = set()
             for p in g.predecessors(n):
-                i |= OUT[p]
+                o_p = OUT[p]
+                # branch-sensitive refinement for the `x = None ... if x is None: x = <value>` placeholder idiom: on the edge where the
+                # test says `x is not None`, a definition `x = None` does not reach
+                lab = g.edges[p, n].get("label")
+                t = self.cfg.tests.get(p) if isinstance(self.cfg.stmt_of.get(p), (ast.If, ast.While)) else None
+                if lab is not None and isinstance(t, ast.Compare) and len(t.ops) == 1 and isinstance(t.left, ast.Name) \
+                        and isinstance(t.comparators[0], ast.Constant) and t.comparators[0].value is None and isinstance(t.ops[0], (ast.Is, ast.IsNot, ast.Eq, ast.NotEq)):
+                    is_none_branch = lab == isinstance(t.ops[0], (ast.Is, ast.Eq))
+                    if not is_none_branch:
+                        nm = t.left.id
+                        o_p = {d for d in o_p if not (d.name == nm and d.kind == "assign" and self._is_none_def(d))}
+                i |= o_p
             IN[n] = i
             gens = self.gen.get(n, [])
             if gens:
@@ -132,6 +143,10 @@ class ReachingDefs:
                 OUT[n] = o
                 work.extend(g.successors(n))
         self.IN, self.OUT = IN, OUT
+
+    def _is_none_def(self, d: Def) -> bool:
+        s = self.cfg.stmt_of.get(d.stmt_id)
+        return isinstance(s, ast.Assign) and len(s.targets) == 1 and isinstance(s.targets[0], ast.Name) and isinstance(s.value, ast.Constant) and s.value.value is None
 
     def reaching(self, stmt: ast.AST, name: str) -> List[Def]:
         return sorted((d for d in self.IN.get(id(stmt), ()) if d.name == name), key=lambda d: d.stmt_id)
